@@ -87,7 +87,7 @@ def _parallel_replay(ctx, exe, env, cases, fanout, timeout):
 
 
 def execute(ctx, batches, modes=MODES, fanout=4, build_workers=4, translate_variant="fast", run_variant="fast",
-            timeout=1500, omp_threads=3, asan_batches=1):
+            timeout=1500, omp_threads=3, asan_batches=1, asan_modes=None):
     """asan_batches: number of batches (spread evenly) that are ALSO translated by the ASan+UBSan build of the
     library (the sanitized translators are ~40x slower); a sanitizer report or a different output is a terr."""
     translate_variant = os.environ.get("OKLRUN_TRANSLATE_VARIANT", translate_variant)   # development aid
@@ -141,7 +141,7 @@ def execute(ctx, batches, modes=MODES, fanout=4, build_workers=4, translate_vari
         pick = sorted(set(int(i * len(batches) / asan_batches) for i in range(min(asan_batches, len(batches)))))
         acases, akeys = [], []
         for bi in pick:
-            for m in modes:
+            for m in (asan_modes or modes):
                 r = res[(bi, m)]
                 acases.append({"op": "translate", "mode": m, "okl": batches[bi].path, "device": r.device_src + ".asan",
                                "launcher": r.launcher_src + ".asan", "props": batches[bi].props})
